@@ -10,6 +10,26 @@ SOLO_TECH = ("TLA+ single-handler adversarial model (Solo.tla over the SrcCore /
              "TLC invariant of every input sequence up to the depth bound; TLC-enumerated sequences replayed into the real "
              "handler; recorded executions validated against the transducers and judged by the same TLA+ monitor")
 CLAIMED = {
+    "C12": dict(
+        text="The C12 monitor (cancel returns true iff busy, transaction id present and equal; after a sender cancel the next PDU is "
+             "EOF(Cancel Request Received) with size = bytes sent and the bit-serial TLA+ checksum of that prefix and no new file "
+             "data follows; after a receiver cancel the next call issues Transaction-Finished with that condition and a Finished "
+             "PDU with the local entity as fault location; EOF(cancel) finishes with the EOF's condition and the sender as fault "
+             "location; the file is deleted iff disposition-on-cancellation and incomplete) is a TLC invariant of every input "
+             "sequence with right / wrong-id cancels at every step on both sides, and is evaluated on all cancel points of "
+             "two-entity transfers TLC enumerates, executed on the real handlers.",
+        ref="DESIGN.md section 6 C12", tech=SOLO_TECH,
+        note="Trusted: TLC; harness projection. Modular checksum excluded from the prefix clause unless prefix = whole file."),
+    "C15": dict(
+        text="The C15 monitor (disabled indications never delivered; EOF-Sent per EOF PDU, EOF-Recv per EOF accepted while receiving, "
+             "File-Segment-Recv with the offset and length of each accepted File Data PDU, Metadata-Recv with the PDU's names / "
+             "size / user messages / source id, Transaction with the originating id unless a proxy put response is present; "
+             "causal order per transaction; transaction id of the PDUs; Transaction-Finished = Finished PDU) is a TLC invariant "
+             "of every input sequence on both sides under all 16 switch settings, and is evaluated on nominal, faulty and "
+             "cancelled two-entity schedules and random adversarial runs executed on the real handlers.",
+        ref="DESIGN.md section 6 C15", tech=SOLO_TECH,
+        note="Trusted: TLC; the recording CfdpUserBase of the harness. Demanded of executions in which every queued PDU is retrieved "
+             "after each call."),
     "C05": dict(
         text="The C05 monitor - an independent write model over the whole sandbox tree (created / truncated empty at the accepted "
              "Metadata, directory targets resolved with the source base name, zero-filled writes per accepted File Data PDU, "
